@@ -34,7 +34,7 @@ func (g *Graph) CutPath(rng *rand.Rand, maxLen int) []*Edge {
 						continue
 					}
 				case "DATA":
-					if len(c.P) >= 4 && (c.P[:4] == "none" || c.P[:4] == "some") || c.P == "all-panic" {
+					if len(c.P) >= 4 && (c.P[:4] == "none" || c.P[:4] == "some") || c.P == "all-panic" || c.P == "none-panic" {
 						continue
 					}
 				case "BAD":
